@@ -518,6 +518,8 @@ pub fn bypassed_dim_programs() -> Vec<(Prog, String)> {
                     }
                     _ => body.extend(decl),
                 }
+                // read before anything is stored: a fixed-length string holds its n blanks from the start
+                body.push(b.print(vec![var("Q"), st("["), var("F"), st("]"), builtin("LEN", vec![var("F")])]));
                 body.push(b.assign(var("Q"), Expr::Num("3.75".into())));
                 body.push(b.assign(var("F"), st("abcdefg")));
                 body.push(b.print(vec![var("Q"), st("["), var("F"), st("]")]));
